@@ -355,3 +355,76 @@ Proof.
     rewrite <- Hlr' in G. rewrite <- HL' in HL.
     pose proof (bounded_wait_aux 16 l' ts W' HL G ltac:(lia) Hlen). lia.
 Qed.
+
+(* ---- replaced limiter objects still polled by in-flight waiters ---- *)
+
+Fixpoint nops_ok (t : Z) (ops : list nop) : Prop :=
+  match ops with
+  | [] => True
+  | NTake now :: r => t <= now /\ nops_ok now r
+  | NTakeStale _ now :: r => t <= now /\ nops_ok now r
+  | NSet k :: r => (1 <= k \/ k = 0) /\ nops_ok t r
+  end.
+
+Definition wfn (t : Z) (n : net) : Prop :=
+  wfo (cur n) /\ last_of (cur n) <= t /\ Forall (fun l => wfl l /\ last_refill l <= t) (stale n).
+
+Lemma Forall_weaken_time t t' ls : t <= t' ->
+  Forall (fun l => wfl l /\ last_refill l <= t) ls -> Forall (fun l => wfl l /\ last_refill l <= t') ls.
+Proof. intros Ht H. eapply Forall_impl; [|exact H]. cbn. intros l [? ?]. split; [assumption|lia]. Qed.
+
+Lemma poll_nth_inv i : forall now t ls, t <= now ->
+  Forall (fun l => wfl l /\ last_refill l <= t) ls ->
+  Forall (fun l => wfl l /\ last_refill l <= now) (fst (poll_nth i now ls)) /\ 0 <= snd (poll_nth i now ls).
+Proof.
+  induction i as [|j IH]; intros now t ls Ht H; destruct ls as [|l r]; cbn [poll_nth fst snd].
+  - split; [constructor|lia].
+  - inversion H as [|? ? [Wl Hl] Hr]; subst.
+    destruct (take_wf l now Wl ltac:(lia)) as (W' & _ & Hl' & _ & Hg).
+    split; [constructor; [split; assumption|eapply Forall_weaken_time; [exact Ht|exact Hr]]|exact Hg].
+  - split; [constructor|lia].
+  - inversion H as [|? ? [Wl Hl] Hr]; subst.
+    destruct (IH now t r Ht Hr) as (Hr' & Hg).
+    split; [constructor; [split; [assumption|lia]|exact Hr']|exact Hg].
+Qed.
+
+Lemma nstep_inv n o t :
+  wfn t n -> nops_ok t [o] ->
+  wfn (match o with NTake now => now | NTakeStale _ now => now | NSet _ => t end) (fst (nstep n o)) /\
+  0 <= snd (nstep n o).
+Proof.
+  intros (Wc & Hc & Hs) Ho. destruct o as [now|k|i now]; cbn [nstep fst snd].
+  - cbn in Ho. destruct Ho as [Hn _].
+    destruct (mstep_inv (cur n) (Take now) t Wc Hc) as (W' & Hl'); [cbn; auto|].
+    split.
+    + unfold wfn; cbn [cur stale]. split; [exact W'|]. split; [exact Hl'|exact (Forall_weaken_time t now (stale n) Hn Hs)].
+    + cbn [mstep]. destruct (cur n) as [l|]; cbn [wfo last_of] in *.
+      * destruct (take_wf l now Wc ltac:(lia)) as (_ & _ & _ & _ & Hg). destruct (take l now); exact Hg.
+      * cbn. unfold unlimited_take, UNLIMITED_GRANT. lia.
+  - cbn in Ho. destruct Ho as [Hk _].
+    destruct (mstep_inv (cur n) (SetLimit k) t Wc Hc) as (W' & Hl'); [cbn; auto|]. cbn [mstep fst] in W', Hl'.
+    split; [|lia]. unfold wfn; cbn [cur stale]. split; [exact W'|]. split; [exact Hl'|].
+    destruct (cur n) as [l|]; [constructor; [split; [exact Wc|exact Hc]|exact Hs]|exact Hs].
+  - cbn in Ho. destruct Ho as [Hn _].
+    destruct (poll_nth_inv i now t (stale n) Hn Hs) as (Hs' & Hg).
+    split; [|exact Hg]. unfold wfn; cbn [cur stale]. split; [exact Wc|]. split; [lia|exact Hs'].
+Qed.
+
+Lemma nrun_wf ops : forall n t, 0 <= t -> wfn t n -> nops_ok t ops -> exists t', wfn t' (nrun n ops).
+Proof.
+  induction ops as [|o r IH]; intros n t Ht W Ho; cbn [nrun]; [eauto|].
+  destruct o as [now|k|i now]; cbn [nops_ok] in Ho; destruct Ho as [H1 Ho].
+  - destruct (nstep_inv n (NTake now) t W) as (W' & _); [cbn; auto|]. eapply (IH _ now); eauto; lia.
+  - destruct (nstep_inv n (NSet k) t W) as (W' & _); [cbn; auto|]. eapply (IH _ t); eauto.
+  - destruct (nstep_inv n (NTakeStale i now) t W) as (W' & _); [cbn; auto|]. eapply (IH _ now); eauto; lia.
+Qed.
+
+(* every limiter object that exists after any history (the current one and every replaced one that an
+   in-flight waiter may still poll) is well-formed, so the window bound holds for each of them *)
+Lemma all_limiters_wf ops t : 0 <= t -> nops_ok t ops ->
+  wfo (cur (nrun (mkNet None []) ops)) /\ Forall wfl (stale (nrun (mkNet None []) ops)).
+Proof.
+  intros Ht Ho. destruct (nrun_wf ops (mkNet None []) t Ht) as (t' & W & _ & Hs); [|exact Ho|].
+  - unfold wfn; cbn. split; [exact I|]. split; [lia|constructor].
+  - split; [exact W|]. eapply Forall_impl; [|exact Hs]. cbn. tauto.
+Qed.
